@@ -542,8 +542,15 @@ def _run_task(case):
                 # chunk files of different actions must not collide
                 os.makedirs(os.path.join(work, 'a%d' % i), exist_ok=True)
                 specs.append(make_cmd_action(a, os.path.join(work, 'a%d' % i)))
-        t = task.Task('t', specs, verbosity=case.get('v', 0), io=io_arg(case.get('capture', True)))
-        acts = list(t.actions)
+        if case.get('teardown'):
+            t = task.Task('t', [], teardown=specs, verbosity=case.get('v', 0), io=io_arg(case.get('capture', True)))
+            acts = list(t.teardown)
+            t.init_options()          # done by Task.execute, which always precedes the teardown in a run
+            run_it = t.execute_teardown
+        else:
+            t = task.Task('t', specs, verbosity=case.get('v', 0), io=io_arg(case.get('capture', True)))
+            acts = list(t.actions)
+            run_it = t.execute
         for i, act in enumerate(acts):
             def wrap(orig, i):
                 def execute(*a, **k):
@@ -552,7 +559,7 @@ def _run_task(case):
                 return execute
             act.execute = wrap(act.execute, i)
         with Swapped() as sw:
-            ret, raised = call(lambda: t.execute(task.Stream(case.get('stream_v', case.get('v', 0)))))
+            ret, raised = call(lambda: run_it(task.Stream(case.get('stream_v', case.get('v', 0)))))
             ident = sw.identity()
         oc, tname = outcome_of(ret, raised)
         return {'outcome': oc, 'type': tname, 'result': canon_res(t.result), 'values': canon_vals(t.values),
